@@ -49,3 +49,16 @@ MUTANTS = [
     {'name': 'benign-docstring-edit', 'expect': 'silent',
      'edits': [E(T, '    """Return the list of root synsets in *wordnet*.', '    """Return all the root synsets in *wordnet*.')]},
 ]
+
+MUTANTS += [
+    {'name': 'benign-rename-locals-shortest', 'expect': 'silent',
+     'edits': [E(T, """    pathmap = _shortest_hyp_paths(synset, other, simulate_root)
+    key = min(pathmap, key=lambda key: len(pathmap[key]), default=None)
+    if key is None:
+        raise wn.Error(f'no path between {synset!r} and {other!r}')
+    return pathmap[key][1:]""", """    paths = _shortest_hyp_paths(synset, other, simulate_root)
+    pivot = min(paths, key=lambda k: len(paths[k]), default=None)
+    if pivot is None:
+        raise wn.Error(f'no path between {synset!r} and {other!r}')
+    return paths[pivot][1:]""")]},
+]
